@@ -900,6 +900,46 @@ fn hand_seeds() -> Vec<(Cx, String, Vec<u8>)> {
         a.extend(raw_attr(0xc0, 18, &[0xfa, 0x56, 0xea, 0x00, 192, 0, 2, 2]));
         out.push((cx2, "hand:as4-reconcile".into(), raw_update(&[], &a, &nlri4)));
     }
+    // ... every pairing of AS_PATH and AS4_PATH segment lists (<= 2 segments, SEQUENCE / SET,
+    // 1 or 2 members, AS_TRANS in the 2-octet path): the reconciliation cuts the AS_PATH at
+    // every possible place, inside and at the end of either segment type
+    {
+        let cx2 = Cx { as4: false, ..cx4 };
+        let segs = |w: usize| -> Vec<Vec<u8>> {
+            let one: Vec<Vec<u8>> = [1u8, 2]
+                .iter()
+                .flat_map(|t| {
+                    [1usize, 2].iter().map(move |n| {
+                        let mut v = vec![*t, *n as u8];
+                        for i in 0..*n {
+                            if w == 2 {
+                                v.extend_from_slice(&(if i == 0 { 23456u16 } else { 65010 }).to_be_bytes());
+                            } else {
+                                v.extend_from_slice(&(if i == 0 { 500_000u32 } else { 65010 }).to_be_bytes());
+                            }
+                        }
+                        v
+                    }).collect::<Vec<_>>()
+                })
+                .collect();
+            let mut all = one.clone();
+            for a in &one {
+                for b in &one {
+                    all.push([a.clone(), b.clone()].concat());
+                }
+            }
+            all
+        };
+        for (i, ap) in segs(2).iter().enumerate() {
+            for (j, a4) in segs(4).iter().enumerate() {
+                let mut a = raw_attr(0x40, 1, &[0]);
+                a.extend(raw_attr(0x40, 2, ap));
+                a.extend(raw_attr(0x40, 3, &[192, 0, 2, 1]));
+                a.extend(raw_attr(0xc0, 17, a4));
+                out.push((cx2, format!("hand:as4-reconcile/{i}x{j}"), raw_update(&[], &a, &nlri4)));
+            }
+        }
+    }
     // legacy withdrawn + attributes + NLRI in one frame
     out.push((cx4, "hand:withdraw+reach".into(), raw_update(&[24, 10, 1, 1, 0], &base_raw_attrs(), &[24, 10, 2, 2, 32, 10, 3, 3, 3])));
     // label-stack chains (RFC 3107 stacks; bottom-of-stack only on the last label)
